@@ -4,6 +4,7 @@ import (
 	"bytes"
 	"fmt"
 	"io"
+	"math"
 	"sort"
 	"strings"
 
@@ -237,7 +238,7 @@ func runC10(t *T) {
 						t.Fail("stat", sig+"handle-stat", fmt.Sprintf("Stat on a handle of %q: cache (%s, %v), source (%s, %v)", h.name, infoString(ci), cerr, infoString(mi), merr))
 					}
 				} else {
-					n := []int{-1, 1, 2, 100}[c.Draw(4)]
+					n := []int{-1, 1, 2, 100, math.MaxInt}[c.Draw(5)]
 					ce, cerr := hackpadfs.ReadDirFile(h.c, n)
 					me, merr := hackpadfs.ReadDirFile(h.m, n)
 					t.Logf("%d h%d(%s).ReadDir(%d) -> cache %d %s | source %d %s", i, hi, h.name, n, len(ce), errClass(cerr), len(me), errClass(merr))
